@@ -470,3 +470,140 @@ def sort_corpus(eng):
     if not m:
         return {"error": f"rc={r.returncode} " + (r.stdout + r.stderr)[-300:]}
     return {"parsed": int(m.group(1)), "bad": int(m.group(2)), "fails": [x[:400] for x in re.findall(r"SORT-FAIL.*", r.stdout)[:5]]}
+
+
+def _up_unsupported(pattern):
+    """port of uses_unsupported_regex_syntax (tests/wpt_urlpattern_tests.cpp): features std::regex cannot express"""
+    valid = set("dDsSwWbBtnrvfcxupPkq^$\\.*+?()[]{}|/-0123456789")
+    depth = 0
+    i = 0
+    while i < len(pattern):
+        c = pattern[i]
+        if c == "[" and (i == 0 or pattern[i - 1] != "\\"):
+            depth += 1
+        elif c == "]" and depth > 0 and (i == 0 or pattern[i - 1] != "\\"):
+            depth -= 1
+        if depth > 0 and i + 1 < len(pattern) and ((c == "-" and pattern[i + 1] == "-") or (c == "&" and pattern[i + 1] == "&")):
+            return True
+        if depth == 0 and c == "(" and pattern[i + 1:i + 3] == "?<" and i + 3 < len(pattern) and pattern[i + 3] not in "=!":
+            return True
+        if c == "\\" and i + 1 < len(pattern):
+            if pattern[i + 1] not in valid:
+                return True
+            i += 1
+        i += 1
+    return False
+
+
+def urlpattern_vectors(eng):
+    """native base case for C14/C15: tests/wpt/urlpatterntestdata.json through harness/urlpattern_vectors.cpp"""
+    d = json.load(open(os.path.join(REPO, "tests/wpt/urlpatterntestdata.json"), encoding="utf-8"))
+    KEYS = ("protocol", "username", "password", "hostname", "port", "pathname", "search", "hash", "baseURL")
+
+    class Skip(Exception):
+        pass
+
+    def hx(x):
+        try:
+            b = x.encode("utf-8")
+        except UnicodeEncodeError:
+            raise Skip()          # broken surrogates: the repository's own runner skips these too
+        return b.hex() or "-"
+
+    def arg(x):
+        if isinstance(x, str):
+            return "S " + hx(x)
+        return "I " + " ".join(f"{k}={hx(v)}" for k, v in x.items() if k in KEYS and isinstance(v, str))
+    lines = []
+    n = 0
+    for idx, t in enumerate(d):
+        if not isinstance(t, dict):
+            continue
+        try:
+            out = [f"V {idx}"]
+            pats = t["pattern"]
+            init, base, opt = {}, None, None
+            if pats:
+                first = pats[0]
+                if isinstance(first, dict) and any(isinstance(v, bool) for v in first.values()):
+                    init, opt = {}, [v for v in first.values() if isinstance(v, bool)][0]
+                else:
+                    init = first
+                    bad = False
+                    for k, x in enumerate(pats[1:], 1):
+                        if k == 1:
+                            if isinstance(x, str):
+                                base = x
+                            else:
+                                opt = bool(x.get("ignoreCase", False))
+                        elif k == 2:
+                            if isinstance(x, dict):
+                                opt = bool(x.get("ignoreCase", False))
+                            else:
+                                bad = True
+                    if bad:
+                        continue
+            texts = [init] if isinstance(init, str) else [init.get(k) for k in ("pathname", "search", "hash", "hostname", "protocol") if isinstance(init.get(k), str)]
+            if any(_up_unsupported(x) for x in texts):
+                continue
+            out.append("P " + arg(init))
+            if base is not None:
+                out.append("PB " + hx(base))
+            if opt is not None:
+                out.append(f"PO {1 if opt else 0}")
+            eo = t.get("expected_obj")
+            if eo == "error":
+                out.append("EO error")
+            elif isinstance(eo, dict):
+                out.append("EO " + " ".join(f"{k}={hx(v)}" for k, v in eo.items()))
+            if t.get("exactly_empty_components"):
+                out.append("EE " + " ".join(t["exactly_empty_components"]))
+            if "inputs" in t:
+                ins = t["inputs"]
+                first = ins[0] if ins else {}
+                out.append("I " + arg(first))
+                if len(ins) > 1:
+                    out.append("IB " + hx(ins[1]))
+                em = t.get("expected_match", "absent")
+                if em == "error":
+                    out.append("EM error")
+                elif em is None:
+                    out.append("EM null")
+                elif isinstance(em, dict):
+                    out.append("EM object")
+                    for k, c in em.items():
+                        if k == "inputs":
+                            if not c:
+                                out.append("EI")
+                            for x in c:
+                                out.append("EI " + arg(x))
+                            continue
+                        out.append(f"C {k} {hx(c.get('input', ''))}")
+                        for g, gv in c.get("groups", {}).items():
+                            if gv is None:
+                                out.append("SKIPM")
+                            else:
+                                out.append(f"G {hx(g)} {hx(gv)}")
+            out.append("END")
+            lines += out
+            n += 1
+        except Skip:
+            continue
+    wd = os.path.join(eng.work, "upvec")
+    os.makedirs(wd, exist_ok=True)
+    open(os.path.join(wd, "vectors.txt"), "w").write("\n".join(lines) + "\n")
+    exe = os.path.join(wd, "upvec.exe")
+    r = subprocess.run([CLANGXX, "-std=c++20", "-O1", "-w", "-DADA_URL_ADA_VERIF=1", "-DADA_USE_UNSAFE_STD_REGEX_PROVIDER=1", "-DADA_INCLUDE_URL_PATTERN=1",
+                        "-I" + os.path.join(REPO, "include"), "-I" + os.path.join(REPO, "src"),
+                        os.path.join(VERIF, "harness", "urlpattern_vectors.cpp"), os.path.join(REPO, "src", "ada.cpp"), "-o", exe], capture_output=True, text=True)
+    if r.returncode != 0:
+        return {"error": "build: " + r.stderr[-600:]}
+    r = subprocess.run([exe, os.path.join(wd, "vectors.txt")], capture_output=True, text=True, errors="replace", timeout=1800)
+    res = {}
+    for pid in ("C14", "C15"):
+        m = re.search(rf"UPVEC {pid} runs=(\d+) bad=(\d+)", r.stdout)
+        if not m:
+            return {"error": f"rc={r.returncode} " + (r.stdout + r.stderr)[-400:]}
+        res[pid] = {"parsed": int(m.group(1)), "bad": int(m.group(2)), "vectors": n,
+                    "fails": [x[:400] for x in r.stdout.splitlines() if x.startswith(f"UPVEC-FAIL {pid}")][:6]}
+    return res
